@@ -576,14 +576,10 @@ func (i *Iterator[T]) ProcessParallel(
 		wg := &WaitGroup{}
 
 		operation := fn.WithRecover().WithErrorFilter(func(err error) error {
-			if opts.CanContinueOnError(err) {
-				return nil
-			}
-			// abort: stop the other workers as well. ReadAll
-			// turns the io.EOF below into nil, so the observer
-			// of the worker never sees it.
-			cancel()
-			return io.EOF
+			return ft.WhenDo(
+				!opts.CanContinueOnError(err),
+				ft.Wrapper(io.EOF),
+			)
 		})
 
 		splits := i.Split(opts.NumWorkers)
